@@ -65,12 +65,22 @@ def run(eng, rep, tier, part=None):
             where = ev.site.func
             role = "operand-write:%s" % loc_str((root if root == "self" else "arg", tuple(p for p in l[1] if p != "[]")))
             key = (where, role)
+            # a private field that is a correctly invalidated cache (filled under its own test, reset by every mutator
+            # that can change what it was computed from) is not abstract state: sa/rules/autocache.py
+            verdict, why = _auto_cache(eng, ev, l)
+            if verdict is True:
+                if key not in seen_write_keys:
+                    seen_write_keys.add(key)
+                    rep.holds("R4b", "C19.R4b-auto", where, "auto-cache:" + loc_str(l), "undeclared field recognised as a cache "
+                              "that cannot go stale: " + why)
+                continue
             bad = True
             if key in seen_write_keys:
                 continue
             seen_write_keys.add(key)
             rep.violation("R4a", "C19.R4a", where, role,
-                          "public non-mutator %s writes operand state %s (%s)" % (ename, loc_str(l), ev.wkind),
+                          "public non-mutator %s writes operand state %s (%s)%s" % (
+                              ename, loc_str(l), ev.wkind, "; as a cache it goes stale - " + why if verdict is False else ""),
                           site=ev.site.to_json(), path=[ename] + chain_strs(chain))
         if not bad:
             rep.holds("R4a", "C19.R4a", fi.qname, "no-operand-write:" + prog.classes[cq].name,
@@ -186,6 +196,46 @@ def _is_builder_helper(fi, pname) -> bool:
 
 
 # --------------------------------------------------------------------------- R4c
+_AUTO = {}
+
+
+def _auto_cache(eng, ev, l):
+    """(True / False / None, reason) for the field written by `ev` - see sa/rules/autocache.py"""
+    from . import autocache
+    from ..av import all_deps
+    cls_q = ev.recv_cls
+    if cls_q is None or cls_q not in eng.prog.classes or ev.func.cls is None:
+        return None, ""
+    # the field of the frame's own receiver that is written (directly, or inside the object it holds)
+    field = None
+    node = ev.node
+    for sub in ast.walk(node):
+        if isinstance(sub, ast.Attribute) and isinstance(sub.value, ast.Name) and sub.value.id == "self":
+            field = sub.attr
+            break
+    if field is None or field not in l[1]:
+        return None, ""
+    deps = set()
+    if ev.value is not None:
+        deps |= set(all_deps(ev.value))
+    for a in ev.args:
+        deps |= set(all_deps(a))
+    deps |= set(ev.ctrl)
+    # dependences are rooted at the entry point; re-root them at the object that holds the field
+    idx = list(l[1]).index(field)
+    holder = (l[0], tuple(l[1][:idx]))
+    dep_fields = set()
+    for d in deps:
+        if isinstance(d, tuple) and len(d) == 2 and isinstance(d[1], tuple) and d[0] == holder[0] and \
+                d[1][:len(holder[1])] == holder[1] and len(d[1]) > len(holder[1]):
+            dep_fields.add(d[1][len(holder[1])])
+    dep_fields.discard(field)
+    key = (cls_q, field, tuple(sorted(dep_fields)))
+    if key not in _AUTO:
+        _AUTO[key] = autocache.judge(eng.prog, eng.abstract, cls_q, field, eng.interp, dep_fields or None)
+    return _AUTO[key]
+
+
 def check_cache_handover(eng, rep, summ, ename):
     """D1 for objects built by the operation: a derived-once cache of a *new* object may be pre-filled with a value
     computed for that object, never with the cache object of an operand (it answers for the operand, goes stale when
